@@ -29,6 +29,19 @@ Theorem c18_no_lock_order_cycle_across_calls : deadlock_pairs = [] /\ acq_closur
 Proof. vm_compute. split; reflexivity. Qed.
 Print Assumptions c18_no_lock_order_cycle_across_calls.
 
+(* no way out of a function leaves one of its mutexes locked *)
+Theorem c18_no_lock_left_held : leaked_locks = [].
+Proof. vm_compute. reflexivity. Qed.
+Print Assumptions c18_no_lock_left_held.
+
+(* deadlocks through channels: every blocking select of the package has a case that shutdown enables, and no
+   channel operation outside a select can block forever (the statements of C12, which a goroutine waiting
+   inside Reset/Stop while holding resetMtx relies on: the ticker goroutine it waits for must observe quit) *)
+Theorem c18_no_goroutine_waits_forever_on_a_channel :
+  uncovered_selects = [] /\ unexpected_bare_ops = [] /\ force_tick_callers = [].
+Proof. vm_compute. repeat split; reflexivity. Qed.
+Print Assumptions c18_no_goroutine_waits_forever_on_a_channel.
+
 Example c18_order_pairs_nontrivial :
   existsb (fun p => String.eqb (fst p) "TimeoutManager.mu" && String.eqb (snd p) "TimeoutManager.sentTimesMu") order_pairs = true /\
   existsb (fun p => String.eqb (fst p) "TimeoutManager.sentTimesMu" && String.eqb (snd p) "TimeoutBooster.mu") order_pairs = true /\
